@@ -18,6 +18,7 @@ from nix_manipulator.expressions import (
 )
 from nix_manipulator.expressions.assertion import Assertion
 from nix_manipulator.expressions.binding import same_attr_name
+from nix_manipulator.expressions.identifier import _resolve_identifier
 from nix_manipulator.expressions.layout import empty_line, linebreak
 from nix_manipulator.expressions.let import LetExpression
 from nix_manipulator.expressions.parenthesis import Parenthesis
@@ -27,7 +28,6 @@ from nix_manipulator.expressions.scope import ScopeLayer, ScopeState
 from nix_manipulator.expressions.set import _AttrpathEntry
 from nix_manipulator.parser import parse
 from nix_manipulator.resolution import (
-    attach_resolution_context,
     scopes_for_owner,
     set_resolution_context,
 )
@@ -98,6 +98,13 @@ def _resolve_target_set_from_expr(
         raise ValueError("Unexpected expression type")
     visited.add(id(target))
 
+    # The chain visible inside *target*: what encloses it plus its own let
+    # layers (and `with` environment / call parameters).
+    if scope_chain is None:
+        scope_chain = scopes_for_owner(target)
+    else:
+        scope_chain = scopes_for_owner(target, enclosing=scope_chain)
+
     def _resolve_nested(
         expr: NixExpression, *, scopes: tuple[Scope, ...] | None = scope_chain
     ) -> AttributeSet:
@@ -128,9 +135,6 @@ def _resolve_target_set_from_expr(
             # Keep searching parent branches when this call argument is not a usable target.
             return None
 
-    if scope_chain is None:
-        scope_chain = scopes_for_owner(target)
-
     match target:
         case Assertion():
             if target.body is None:
@@ -143,7 +147,10 @@ def _resolve_target_set_from_expr(
             if output is None:
                 raise ValueError("Unexpected function output type")
             if isinstance(output, FunctionCall):
-                output_argument = _resolve_call_argument(output)
+                output_argument = _resolve_call_argument(
+                    output,
+                    scopes=scopes_for_owner(output, enclosing=scope_chain),
+                )
                 if output_argument is not None:
                     return output_argument
             if isinstance(output, AttributeSet):
@@ -153,20 +160,14 @@ def _resolve_target_set_from_expr(
             except ValueError as exc:
                 raise ValueError("Unexpected function output type") from exc
         case WithStatement():
-            body_scopes = scopes_for_owner(target) or scope_chain
-            attach_resolution_context(target.body, owner=target)
-            return _resolve_target_set_from_expr(
-                target.body,
-                scope_chain=body_scopes,
-                _visited=visited,
-            )
+            set_resolution_context(target.body, scope_chain)
+            return _resolve_nested(target.body)
         case Identifier():
-            resolved, identifier_scopes = _resolve_identifier_target(
-                target,
-                preferred_scopes=scope_chain,
-                owners=(target,),
-            )
-            return _resolve_nested(resolved, scopes=identifier_scopes)
+            # Resolve without storing the chain on the identifier: it holds
+            # the identifier's own let layers, which a later
+            # scopes_for_owner() call would add a second time.
+            resolved, _ = _resolve_identifier(target, scope_chain)
+            return _resolve_nested(resolved)
         case Parenthesis():
             return _resolve_nested(target.value)
         case AttributeSet():
